@@ -298,3 +298,16 @@ def chase_const(w, b, operand, depth=6):
     if rv["k"] == "ref":
         return chase_const(w, b, {"copy": {"local": rv["place"]["local"], "proj": []}}, depth - 1)
     return None
+
+
+def impl_fn(w, adt, trait, method, crate="vaporetto", hand_written=None):
+    """path of `method` in the impl of `trait` for `adt` (located through the impl table, not by name)"""
+    c = w.crates[crate]
+    for i in c.impls:
+        if i["self_adt"] == adt and i["trait"] == trait:
+            if hand_written is True and i.get("derive"):
+                continue
+            for it_ in i["items"]:
+                if it_.endswith("::" + method):
+                    return it_, i
+    return None, None
